@@ -386,12 +386,15 @@ def af_rules(run, repo, tier):
     # ---- metadata: two runs, all builder calls, both byte orders ---------------------------------------------------
     for bo, n_runs, indirect, calls in (('little', 1, False, 'PISDT'), ('big', 3, False, 'PISDT'), ('little', 2, True, 'PISDT'), ('little', 1, 'transposed', 'PISDT'),
                                         ('big', 2, 'shared', 'PISDT'), ('little', 2, 'shared', 'PISDT'),
+                                        # run ids that are not the positions of the runs: counted down to 0, and starting above 0
+                                        ('little', 3, 'ids 2,1,0', 'PISDT'), ('big', 2, 'ids 5,3', 'PISDT'),
                                         # the builder calls in other orders: instrument and sample before the pixel data that registers the runs
                                         ('little', 2, False, 'ISDPT'), ('big', 1, False, 'SIPDT')):
+        ids = [int(x) for x in indirect[4:].split(',')] if isinstance(indirect, str) and indirect.startswith('ids ') else None
         wr = build(repo, tuple(calls), bo, 4, 3, n_runs, 'memory', 'the title', indirect=indirect is True or indirect == 'transposed',
-                   transposed=indirect == 'transposed', shared_runs=indirect == 'shared')
+                   transposed=indirect == 'transposed', shared_runs=indirect == 'shared', run_ids=ids)
         cfg = f'byteorder={bo} runs={n_runs} calls={calls} mode=' + {False: 'direct', True: 'indirect', 'transposed': 'indirect, en supplied as (energy_transfer, detector)',
-                                                                    'shared': 'direct, runs made from one template (shared arrays)'}[indirect]
+                                                                    'shared': 'direct, runs made from one template (shared arrays)'}.get(indirect, f'direct, run {indirect}')
         if wr.outcome[0] != 'return':
             r5.fail(f'builder [{cfg}]', loc(repo.func(BUILD, 'SqwBuilder.create')), {'outcome': wr.outcome}, key='builder')
             continue
@@ -410,6 +413,30 @@ def af_rules(run, repo, tier):
             r5.fail(f'decoded content [{cfg}]', where_of(repo, MODELS, 'SqwIXExperiment._serialize_to_dict', 'SqwIXExperiment.prepare_for_serialization'),
                     {'problems': [f'a documented field is missing or malformed on disk: {type(ex).__name__} {ex}']}, key='content')
         _reader_rules(wr, sup, n_runs, cfg, repo, r6, sfi)
+
+    # ---- R7: what is read does not depend on what was read before ---------------------------------------------------------
+    r7 = run.rule('R7', 'reading does not depend on earlier reads: a file is written to a path and read, a second file of the same layout with '
+                        'other numbers is written to the same path in the same world (module-level tables and caches persist) and read: the '
+                        'models returned are those of the second file', 2)
+    for bo, n_runs in (('little', 2), ('big', 1)):
+        w1 = build(repo, tuple('PISDT'), bo, 4, 3, n_runs, 'file', 'the title')
+        cfg = f'byteorder={bo} runs={n_runs}: second file at the same path'
+        if w1.outcome[0] != 'return':
+            r7.fail(f'builder [{cfg}]', loc(repo.func(BUILD, 'SqwBuilder.create')), {'outcome': w1.outcome}, key='history-builder')
+            continue
+        _reader_rules(w1, w1.supplied, n_runs, cfg + ' (first file)', repo, run.rule('R7', ''), sfi) if False else None
+        k1, sq1 = reopen(w1)
+        if k1 == 'return':
+            for name in (('experiment_info', 'expdata'), ('experiment_info', 'samples'), ('experiment_info', 'instruments'), ('', 'main_header'),
+                         ('data', 'metadata'), ('pix', 'metadata')):
+                w1.world.call(sfi, [name], bound=sq1, budget=400_000)
+        w1.world.it.end_of_call()
+        w1.world.tag = "'"
+        w2 = build(repo, tuple('PISDT'), bo, 4, 3, n_runs, 'file', 'the title', world=w1.world)
+        if w2.outcome[0] != 'return':
+            r7.fail(f'builder [{cfg}]', loc(repo.func(BUILD, 'SqwBuilder.create')), {'outcome': w2.outcome}, key='history-builder')
+            continue
+        _reader_rules(w2, w2.supplied, n_runs, cfg, repo, r7, sfi)
 
 
 def _decoded_content_rules(dec, sup, n_runs, cfg, repo, r4, r5):
